@@ -83,6 +83,11 @@ type h264AU struct {
 // would overwrite the first by design of the hold-back; the property speaks of pairs
 // that arrive "before the next unit").
 func genH264AU(t *core.Tape, mtu int, allowParams bool, state *int) h264AU {
+	return genH264AUx(t, mtu, allowParams, state, false)
+}
+
+// genH264AUx: with supersede, SPS and PPS units are sprinkled freely (not in pairs).
+func genH264AUx(t *core.Tape, mtu int, allowParams bool, state *int, supersede bool) h264AU {
 	var au h264AU
 	n := 1 + t.Intn(6)
 	add := func(typ, nri byte, size int) {
@@ -99,7 +104,11 @@ func genH264AU(t *core.Tape, mtu int, allowParams bool, state *int) h264AU {
 				typ = byte(1 + t.Intn(23))
 			}
 		}
-		add(typ, byte(t.Intn(4)), nalSize(t, mtu, 2, 2))
+		size := nalSize(t, mtu, 2, 2)
+		if t.Chance(1, 400) && mtu >= 1000 {
+			size = 65530 + t.Intn(3000) // larger than any 16-bit length: key frames of real encoders are
+		}
+		add(typ, byte(t.Intn(4)), size)
 		*state = 0
 	}
 	for i := 0; i < n; i++ {
@@ -112,6 +121,11 @@ func genH264AU(t *core.Tape, mtu int, allowParams bool, state *int) h264AU {
 		case 0:
 			ordinary()
 		case 1:
+			if supersede && allowParams {
+				// free-form parameter sets: a later SPS/PPS may supersede a held one
+				add(byte(7+t.Intn(2)), byte(t.Intn(4)), 2+t.Intn(20))
+				continue
+			}
 			if !allowParams || *state != 0 {
 				ordinary()
 				continue
@@ -252,6 +266,15 @@ func foreignH264(t *core.Tape, units [][]byte) [][]byte {
 			k := 1 + t.Intn(5)
 			if i+k > len(units) {
 				k = len(units) - i
+			}
+			tooBig := false
+			for _, x := range units[i : i+k] {
+				if len(x) > 0xFFFF {
+					tooBig = true // a STAP-A size field has 16 bits
+				}
+			}
+			if tooBig {
+				continue
 			}
 			var maxNRI byte
 			for _, x := range units[i : i+k] {
